@@ -86,8 +86,9 @@ def run(prop, tier, seed):
         truth = record_events([{"op": "construct", "ver": v, "s": esc(s), "json": False} for v, s, _ in pool[:120]], work, name="truth")
         pool2 = [(e["ver"], corpus_unesc(e["s"]), e["out"]["scores"][0]) for e in truth if e["out"]["cls"] == "ok"]
         items += [{"op": "fromrh", "ver": ver, "s": esc(s), "json": False} for ver, s in corpus.rh_numeric_wild(rnd, 700 if not big else 10000, pool2)]
-        from props.text13 import assembled_texts
+        from props.text13 import assembled_texts, pattern_texts
         items += [{"op": "text", "text": esc(t)} for t in assembled_texts(rnd, 300 if not big else 5000)]
+        items += [{"op": "text", "text": esc(t)} for t in pattern_texts(rnd, 2 if not big else 12)[:: (3 if not big else 1)]]          # arrangements of related vectors
         sess = interactive16.targeted_scripts(rnd)
         sess = sess[:: (12 if not big else 1)]
         r = tlc_or_die("MC_Cli", workers=1, timeout=600)
